@@ -1,4 +1,5 @@
 import HcModel.SpecController
+import HcProofs.Lemmas.Srp
 /-
   C04 — a specification-conformant controller can pair, verify and talk.
   The accessory procedure is parameterised by the labels / nonces / material orders regenerated from /repo
@@ -45,6 +46,13 @@ theorem wrong_code_rejected (p : Params) (hcode : p.ctrlCode ≠ p.code) :
     (honestRun specLabels p).m4Accepted = false ∧ (honestRun specLabels p).stored = none := by
   have h : ¬ p.code = p.ctrlCode := fun h => hcode h.symm
   simp [honestRun, specLabels, srpClientK, srpServerK, S, h, hcode]
+
+/-- Why the symbolic `srpK a b x` may be one term for both parties: the arithmetic of SRP-6a. With A = g^a, verifier
+    v = g^x and B − k·v ≡ g^b, the accessory's (A·v^u)^b and the controller's (B − k·v)^(a+u·x) coincide mod N, for
+    every group, all secrets and every u. (That nobody can compute it without x or b is the SRP assumption.) -/
+theorem srp_key_agreement (g a b x u N : Nat) :
+    (((g ^ a % N) * ((g ^ x % N) ^ u % N)) % N) ^ b % N = ((g ^ b % N) ^ (a + u * x)) % N :=
+  Hc.Srp.key_agreement g a b x u N
 
 -- non-vacuity: a concrete parameter set -----------------------------------------------------------------------------
 def sample : Params :=
